@@ -450,9 +450,19 @@ def execute(pp, torch, spec):
             if made[0] > nsteps:
                 raise RuntimeError('the scheduler asked for optimizer step %d with a budget of steps=%d' % (made[0], nsteps))
             if made[0] > 1:
-                with torch.enable_grad():
-                    J2 = pp.optim.functional.modjac(opt.model, input=(inp, target), flatten=False, vectorize=spec['vectorize'])
-                R2 = opt.model(inp, target)
+                try:
+                    with torch.enable_grad():
+                        J2 = pp.optim.functional.modjac(opt.model, input=(inp, target), flatten=False, vectorize=spec['vectorize'])
+                    R2 = opt.model(inp, target)
+                    bad = any(not bool(torch.isfinite(t).all()) for Jr in J2 for t in Jr) or any(not bool(torch.isfinite(t).all()) for t in R2)
+                except AssertionError:      # modjac: 'Jacobian contains Nan! Check your model and input!'
+                    bad = True
+                if bad:
+                    # the EARLIER step of this scheduler call (the solver's answer on its system) left parameters at which the
+                    # model itself is not finite (e.g. a log-scale of 1e8): the step that follows is outside the property's
+                    # quantifier, whatever it does (same class as a retraction that overflows, see _oracle)
+                    rec['later_step_starts_nonfinite'] = True
+                    return orig_step(*a, **k)
                 rec.update(J=[[j.detach().clone() for j in Jr] for Jr in J2], R=[r.detach().clone() for r in R2], P0=snapshot(net))
                 rs.log, rs.failed = [], 0
                 if rst is not None:
@@ -753,6 +763,8 @@ def _oracle(pp, torch, spec, rec=None):
     rec = rec or execute(pp, torch, spec)
     name = spec['opt']
     frozen = any(not p['req'] for p in spec['params'])
+    if rec.get('later_step_starts_nonfinite'):
+        return None     # see execute(): the judged step starts where the model is not finite - outside the quantifier
     if rec['raised'] is not None and rec['raised'] != 'scripted':
         fin = rec.get('final') or []
         nonfinite = any(not math.isfinite(v) for q in fin for v in q)
@@ -1107,8 +1119,8 @@ def exact_guard(spec, rec):
 
 def tolerances(spec):
     exact = spec['exact']
-    exactA = exact
     multi = (spec.get('entry') or 'step') != 'step' and spec.get('sched_steps', 1) > 1      # earlier steps of the same scheduler call
+    exactA = exact and not multi     # the judged (last) step starts from the result of an earlier solve: J, R are generic floats there
     exactP = exact and spec.get('script') is not None and all(p['kind'] != 'G' for p in spec['params']) and not spec.get('warm') and not multi
     return ((0, 0) if exactA else (REL, None)), ((0, 0) if exactP else (REL, REL))
 
@@ -1269,6 +1281,9 @@ def run_specs(ctx, pp, torch, specs, tag):
             ctx.notes.append('skipped spec (%s: %s)' % (type(e).__name__, str(e)[:100]))
             continue
         frozen = any(not p['req'] for p in spec['params'])
+        if rec.get('later_step_starts_nonfinite'):
+            ctx.count('later-step-starts-nonfinite-skipped')    # see execute(): outside the quantifier, nothing to compare
+            continue
         ntrials = len(rec['solves'])
         allv = [v for e in rec['solves'] for t in (e['A'], e['b'], e['D']) for v in tolist(t)] + [v for snap in [rec['final']] + (rec['after'] or []) for q in snap for v in q]
         if not all(math.isfinite(v) for v in allv):
